@@ -245,7 +245,8 @@ impl Plurals {
         locale: &Key,
         key_path: &KeyPath,
     ) -> Result<ParsedValue> {
-        if let Some(count_arg) = args.get("var_count") {
+        // the count may have been renamed by an earlier foreign key (`{"count": "{{ n }}"}`)
+        if let Some(count_arg) = args.get(&*self.count_key.name) {
             return self.populate_with_count_arg(count_arg, args, foreign_key, locale, key_path);
         }
 
